@@ -251,6 +251,18 @@ impl Ctx {
                 "example": g.first.case,
             }));
             if is_known {
+                // keep a replayable artefact for listed findings as well
+                let kdir = replay_dir.join("known");
+                let _ = std::fs::create_dir_all(&kdir);
+                let fname = kdir.join(format!("{}.json", sanitize(sig)));
+                let body = json!({
+                    "property": self.id, "sig": sig, "what": g.first.what, "cases_with_this_sig": g.count,
+                    "case": g.first.case,
+                    "replay": format!("cd /verif && ./check {} --replay {}", self.id, fname.display()),
+                });
+                if !self.replay_only {
+                    let _ = std::fs::write(&fname, serde_json::to_string_pretty(&body).unwrap());
+                }
                 let text = known
                     .known
                     .iter()
